@@ -139,7 +139,9 @@ class OsuMap(Map[OsuNoteList, OsuHitList, OsuHoldList, OsuBpmList], OsuMapMeta):
         """Changes the rate of the map"""
         osu = super(OsuMap, self.deepcopy()).rate(by)
         osu.samples.offset /= by
-        osu.preview_time /= by
+        # -1 marks "no preview point": it isn't a time
+        if osu.preview_time != -1:
+            osu.preview_time /= by
 
         return osu
 
